@@ -55,7 +55,7 @@ structure Field (ν : Type) where
 
 structure WhereSpec (ν : Type) where
   plain : Option (Pred ν)                       -- `col cmp c`
-  ana : Option (Field ν × Option (Cmp × ν))     -- analytic call in WHERE (`call cmp c`, or used as a boolean)
+  ana : List (Field ν × Option (Cmp × ν))       -- analytic calls in WHERE (`call cmp c`, or used as a boolean), AND-ed
 
 structure Query (ν : Type) where
   cap : Int
@@ -198,10 +198,7 @@ def evalAll (cap : Nat) : List (Field ν) → List (FEng ν) → Row ν → List
   | f :: fs, e :: es, r => ((fieldEval cap f e r).1 :: (evalAll cap fs es r).1, (fieldEval cap f e r).2 :: (evalAll cap fs es r).2)
   | _, es, _ => (es, [])
 
-def Query.allFields (q : Query ν) : List (Field ν) :=
-  match q.wher.ana with
-  | some p => q.fields ++ [p.1]
-  | none => q.fields
+def Query.allFields (q : Query ν) : List (Field ν) := q.fields ++ q.wher.ana.map Prod.fst
 
 def Query.machine (q : Query ν) : Machine (List (FEng ν)) (Row ν) (List (Option (COut ν))) where
   init := q.allFields.map (fun _ => Eng.empty)
@@ -216,11 +213,9 @@ def anaHolds (c : Option (Cmp × ν)) (o : Option (COut ν)) : Bool :=
 /-- the rewritten WHERE on the row with the placeholder value injected -/
 def Query.post (q : Query ν) (r : Row ν) (outs : List (Option (COut ν))) : Bool :=
   optPred q.wher.plain r &&
-    match q.wher.ana with
-    | some p => anaHolds p.2 (outs.getD q.fields.length none)
-    | none => true
+    q.wher.ana.zipIdx.all (fun p => anaHolds p.1.2 (outs.getD (q.fields.length + p.2) none))
 
-def Query.uses (q : Query ν) : Bool := q.wher.ana.isSome
+def Query.uses (q : Query ν) : Bool := !q.wher.ana.isEmpty
 
 /-- one row through `applyWhereAndAnalytic` -/
 def Query.step (q : Query ν) (s : List (FEng ν)) (r : Row ν) : List (FEng ν) × Option (List (Option (COut ν))) :=
